@@ -187,8 +187,19 @@ func checkQuantifier(r *Run, prog *Program, a *Anchors, pfx string) {
 						root = only
 					}
 				}
-				mk, isMK := root.(*ssa.Call)
-				if !isMK || !isReflectMethod(mk.Call.StaticCallee(), "MapKeys") {
+				isKeys := false
+				if mk, isMK := root.(*ssa.Call); isMK && isReflectMethod(mk.Call.StaticCallee(), "MapKeys") {
+					isKeys = true
+				}
+				if phi, isPhi := root.(*ssa.Phi); isPhi {
+					// the keys (or their texts) collected one per entry into a slice of their own
+					for _, kc := range keyCollections(ff) {
+						if kc.phi == phi {
+							isKeys = true
+						}
+					}
+				}
+				if !isKeys {
 					continue
 				}
 				rangeForm = true
@@ -695,7 +706,11 @@ func checkMapKeyGuard(r *Run, prog *Program, a *Anchors, pfx string) {
 				continue
 			}
 			if fn4, _ := calleeOfSym(rel.other); isReflectFunc(fn4, "TypeOf") {
-				if a4 := symArgs(sm.St, rel.other); len(a4) == 1 && a4[0].K == sMkIface && a4[0].A.T != nil {
+				a4 := symArgs(sm.St, rel.other)
+				if len(a4) == 0 && prog.SSA != nil {
+					a4 = symArgs(prog.Globals().st, rel.other) // a type computed once, in a package-level variable's initialiser
+				}
+				if len(a4) == 1 && a4[0].K == sMkIface && a4[0].A.T != nil {
 					if b, isB := types.Default(a4[0].A.T).Underlying().(*types.Basic); isB && b.Kind() == types.String {
 						ok = true
 					}
